@@ -115,18 +115,17 @@ def intoContainer (n : Node) : Outcome Node :=
 
 /-! ### `container` methods -/
 
-/-- `get`: the result node may be `nil` (a JSON null child, or a missing `self`) -/
-def conGet (o : Opts) (self : Node) (con : Node) (key : Bytes) : Outcome Node :=
+/-- `get`: the result node may be `nil` (a JSON null child).  An empty key is an ordinary
+member name (RFC 6901); the `self` argument is kept for the callers' signatures and unused. -/
+def conGet (o : Opts) (_self : Node) (con : Node) (key : Bytes) : Outcome Node :=
   match con with
   | .doc _ obj =>
-    if key = [] then .ok self
-    else match lookupN key obj with
-      | some n => .ok n
-      | none => .err .missing
-  | .docNil => if key = [] then .ok self else .err .expectedObject
+    match lookupN key obj with
+    | some n => .ok n
+    | none => .err .missing
+  | .docNil => .err .expectedObject
   | .ary nodes =>
-    if key = [] then .ok self
-    else match atoi key with
+    match atoi key with
       | none => .err .other
       | some idx =>
         if idx < 0 then
